@@ -256,10 +256,10 @@ func resultFieldIn(v ssa.Value, typeName string) string {
 }
 
 var csvEncSig = map[string]string{
-	"time":     "strconv.FormatInt((time.Time).UnixNano(F),10)",
-	"uint16":   "strconv.FormatUint(F,10)",
-	"uint64":   "strconv.FormatUint(F,10)",
-	"duration": "strconv.FormatInt((time.Duration).Nanoseconds(F),10)",
+	"time":     "decimal((time.Time).UnixNano(F))",
+	"uint16":   "decimal(F)",
+	"uint64":   "decimal(F)",
+	"duration": "decimal((time.Duration).Nanoseconds(F))|decimal(F)",
 	"string":   "F",
 	"bytes":    "(*encoding/base64.Encoding).EncodeToString(*StdEncoding,F)",
 	"header":   "(*encoding/base64.Encoding).EncodeToString(*StdEncoding,lib.headerBytes(F))",
@@ -295,7 +295,7 @@ func c07CSV(c *Ctx, res *types.Named) (encF, decF map[string]bool) {
 		return
 	}
 	encField := make([]string, len(cols))
-	rname := enc.Params[0].Name()
+	_ = enc.Params[0]
 	for i, col := range cols {
 		f := resultFieldIn(col, "Result")
 		encField[i] = f
@@ -305,9 +305,16 @@ func c07CSV(c *Ctx, res *types.Named) (encF, decF map[string]bool) {
 			continue
 		}
 		encF[f] = true
-		sig := strings.ReplaceAll(describeVal(col), rname+"."+f, "F")
+		sig := strings.ReplaceAll(describeVal(col), "arg0."+f, "F")
 		want := csvEncSig[typeClass(ftype[f])]
-		c.Check(sig == want, key, rCol, f+" via "+sig, fmt.Sprintf("column %d encodes %s as %s; frozen conversion for %s is %s", i+1, f, sig, typeClass(ftype[f]), want), c.at(writes[0]))
+		sig = normDecimal(sig)
+		okSig := false
+		for _, w := range strings.Split(want, "|") {
+			if sig == w {
+				okSig = true
+			}
+		}
+		c.Check(okSig, key, rCol, f+" via "+sig, fmt.Sprintf("column %d encodes %s as %s; frozen conversion for %s is %s", i+1, f, sig, typeClass(ftype[f]), want), c.at(writes[0]))
 	}
 	// each field once
 	seen := map[string]int{}
